@@ -11,6 +11,8 @@ import time
 
 import vcommon as V
 
+sys.setrecursionlimit(100000)     # 1030-leaf content models are right-nested 1030 deep
+
 sys.path.insert(0, os.path.join(V.VERIF, "translator"))
 import c07_valid as TV  # noqa
 
@@ -176,7 +178,7 @@ def gen_cases(ctx):
     for size in (1, 2, 3, 4):
         small += all_models(size, NAMES)
     if thorough:
-        small += all_models(5, NAMES)
+        small += all_models(5, NAMES) + all_models(6, NAMES)
     else:
         s5 = all_models(5, NAMES)
         small += rng.sample(s5, 150)
@@ -186,7 +188,7 @@ def gen_cases(ctx):
         small = keep + rng.sample(rest, 260 - len(keep))
     for t in small:
         m, tx = "K:" + polish(t), text(t)
-        ws = short3 if (thorough or nleaves(t) <= 2) else rng.sample(short3, 60) + short3[:13]
+        ws = short3 if ((thorough and len(polish(t).split('.')) <= 5) or nleaves(t) <= 2) else rng.sample(short3, 60) + short3[:13]
         for w in ws:
             add("small", m, tx, decl, w)
         add("small-tag", m, tx, decl, [], 1)
@@ -246,6 +248,391 @@ def gen_cases(ctx):
     return cases
 
 
+# ---- attributes ------------------------------------------------------------------------------------------------
+# token = (class, k): ("n", k) Name t<k> | ("m", k) Nmtoken <k>t | ("b", k) t#<k> (not an Nmtoken)
+def tok_text(t):
+    return {"n": "t%d", "m": "%dt", "b": "t#%d"}[t[0]] % t[1]
+
+
+def val_text(v):
+    return " ".join(tok_text(t) for t in v)
+
+
+def val_req(v):
+    return "+".join("%s%d" % t for t in v) if v else "-"
+
+
+TYPE_TEXT = {"C": "CDATA", "I": "ID", "R": "IDREF", "RS": "IDREFS", "E": "ENTITY", "ES": "ENTITIES", "N": "NMTOKEN",
+             "NS": "NMTOKENS"}
+
+
+def def_req(d):
+    name, ty, toks, dk, dv = d
+    t = ty if ty not in ("O", "M") else "%s=%s" % (ty, val_req(toks))
+    df = dk if dk in ("Q", "I") else "%s=%s" % (dk, val_req(dv))
+    return "%d:%s:%s" % (name, t, df)
+
+
+def def_text(d):
+    name, ty, toks, dk, dv = d
+    if ty == "O":
+        t = "NOTATION (" + "|".join(tok_text(x) for x in toks) + ")"
+    elif ty == "M":
+        t = "(" + "|".join(tok_text(x) for x in toks) + ")"
+    else:
+        t = TYPE_TEXT[ty]
+    df = {"Q": "#REQUIRED", "I": "#IMPLIED"}.get(dk) or ('#FIXED "%s"' % val_text(dv) if dk == "F" else '"%s"' % val_text(dv))
+    return "a%d %s %s" % (name, t, df)
+
+
+def attr_doc_text(unparsed, parsed, defs, doc):
+    out = ['<?xml version="1.0"?>', "<!DOCTYPE r [", "<!ELEMENT r (e)*>", "<!ELEMENT e (#PCDATA)>",
+           '<!NOTATION nt SYSTEM "nt">']
+    nots = sorted({t[1] for d in defs if d[1] == "O" for t in d[2] if t[0] == "n"})
+    out += ['<!NOTATION t%d SYSTEM "x%d">' % (k, k) for k in nots]
+    out += ['<!ENTITY t%d SYSTEM "u%d" NDATA nt>' % (k, k) for k in unparsed]
+    out += ['<!ENTITY t%d "p%d">' % (k, k) for k in parsed]
+    if defs:
+        out.append("<!ATTLIST e " + "\n  ".join(def_text(d) for d in defs) + ">")
+    out.append("]>")
+    body = "".join("<e%s></e>" % "".join(' a%d="%s"' % (n, val_text(v)) for n, v in el) for el in doc)
+    out.append("<r>" + body + "</r>")
+    return "\n".join(out) + "\n"
+
+
+def attr_req(sw, unparsed, parsed, defs, doc):
+    dr = ";".join(def_req(d) for d in defs) if defs else "-"
+    er = "/".join(",".join("%d=%s" % (n, val_req(v)) for n, v in el) if el else "-" for el in doc)
+    return "attr %d %s %s %s %s %s" % (sw, csv(unparsed), csv(parsed), dr, er,
+                                       attr_doc_text(unparsed, parsed, defs, doc).encode().hex().upper())
+
+
+def f25_class(defs, doc):
+    """the class of finding F25: a specified NOTATION / enumeration attribute whose value has several tokens"""
+    ty = {d[0]: d[1] for d in defs}
+    return any(ty.get(n) in ("O", "M") and len(v) >= 2 for el in doc for n, v in el)
+
+
+def f25_class_req(request):
+    """f25_class decided on the request text (so that replays use the same predicate)"""
+    a = request.split()
+    ty = {}
+    for d in a[4].split(";"):
+        if d != "-":
+            n, t, _ = d.split(":", 2)
+            ty[n] = t[0]
+    for el in a[5].split("/"):
+        if el == "-":
+            continue
+        for at in el.split(","):
+            n, v = at.split("=", 1)
+            if ty.get(n) in ("O", "M") and v.count("+") >= 1:
+                return True
+    return False
+
+
+F25_WITNESS = ([], [], [(1, "M", [("n", 1), ("n", 2)], "I", None)], [[(1, [("n", 1), ("n", 2)])]])
+
+
+def gen_attr_cases(ctx):
+    rng = ctx.rng
+    thorough = ctx.tier == "thorough"
+    cases = [("attr-F25-witness",) + F25_WITNESS,
+             ("attr-F25-witness", [], [], [(1, "O", [("n", 1), ("n", 2)], "I", None)], [[(1, [("n", 2), ("n", 1)])]])]
+    unparsed, parsed = [50, 51], [60]
+
+    def valid_value(ty, toks, idpool, fresh):
+        if ty == "C":
+            return [rng.choice([("n", 1), ("m", 2), ("b", 3), ("n", 70)]) for _ in range(rng.randrange(0, 3))]
+        if ty == "I":
+            return [("n", fresh())]
+        if ty == "R":
+            return [("n", rng.choice(idpool))] if idpool else [("n", 99)]
+        if ty == "RS":
+            return [("n", rng.choice(idpool)) for _ in range(rng.randrange(1, 4))] if idpool else [("n", 99)]
+        if ty == "E":
+            return [("n", rng.choice(unparsed))]
+        if ty == "ES":
+            return [("n", rng.choice(unparsed)) for _ in range(rng.randrange(1, 4))]
+        if ty == "N":
+            return [rng.choice([("n", 5), ("m", 6), ("n", 70)])]
+        if ty == "NS":
+            return [rng.choice([("n", 5), ("m", 6), ("n", 70)]) for _ in range(rng.randrange(1, 4))]
+        return [rng.choice(toks)]
+
+    def broken_value(ty, toks, idpool, usedids):
+        opts = []
+        if ty != "C":
+            opts += [[], [("b", 7)], [("b", 7), ("n", 1)]]
+        if ty in ("I", "R", "E", "N", "O", "M"):
+            opts += [[("n", 80), ("n", 81)]]
+        if ty == "I":
+            opts += [[("m", 8)]] + ([[("n", rng.choice(usedids))]] if usedids else [])
+        if ty in ("R", "RS"):
+            opts += [[("n", 98)], [("m", 8)]]
+        if ty == "RS":
+            opts += [[("n", 98), ("n", idpool[0] if idpool else 97)], [("m", 8), ("n", 98)]]
+        if ty in ("E", "ES"):
+            opts += [[("n", parsed[0])], [("n", 97)], [("m", 8)]]
+        if ty == "ES":
+            opts += [[("n", unparsed[0]), ("n", 97)], [("n", parsed[0]), ("n", unparsed[0])]]
+        if ty == "NS":
+            opts += [[("n", 1), ("b", 2)]]
+        if ty in ("O", "M"):
+            opts += [[("n", 96)], list(toks[:2]) if len(toks) >= 2 else [toks[0], toks[0]], [toks[0], ("n", 96)]]
+        if ty == "M":
+            opts += [[("m", 95)]]
+        if ty == "O":
+            opts += [[("m", 8)]]
+        return rng.choice(opts) if opts else []
+
+    n = 700 if not thorough else 12000
+    for _ in range(n):
+        # declarations: distinct names, at most one ID and one NOTATION attribute, valid defaults
+        types = []
+        for _k in range(rng.randrange(1, 5)):
+            ty = rng.choice(["C", "I", "R", "RS", "E", "ES", "N", "NS", "O", "M"])
+            if ty in ("I", "O") and ty in types:
+                ty = "C"
+            types.append(ty)
+        counter = [100]
+
+        def fresh():
+            counter[0] += 1
+            return counter[0]
+        nelem = rng.randrange(1, 5)
+        id_attr = types.index("I") + 1 if "I" in types else None
+        idvals = [fresh() for _ in range(nelem)] if id_attr else []
+        defs = []
+        for i, ty in enumerate(types):
+            toks = None
+            if ty == "O":
+                toks = [("n", k) for k in rng.sample([1, 2, 3, 4], rng.randrange(1, 4))]
+            if ty == "M":
+                toks = rng.sample([("n", 1), ("n", 2), ("m", 3), ("m", 4)], rng.randrange(1, 4))
+            if ty == "I":
+                dk = rng.choice("QI")
+            else:
+                dk = rng.choice("QIIFD")
+            dv = None
+            if dk in "FD":
+                dv = valid_value(ty, toks, idvals, fresh)
+                if ty == "C" and any(t[0] == "b" for t in dv):
+                    dv = [("n", 1)]
+            defs.append((i + 1, ty, toks, dk, dv))
+        doc = []
+        usedids = []
+        nbreak = rng.choice([0, 0, 1, 1, 1, 2])
+        kind = "attr-valid" if nbreak == 0 else "attr-broken%d" % nbreak
+        slots = [(e, i) for e in range(nelem) for i in range(len(defs))]
+        broken = set(rng.sample(slots, min(nbreak, len(slots))))
+        for e in range(nelem):
+            el = []
+            for i, d in enumerate(defs):
+                name, ty, toks, dk, dv = d
+                if (e, i) in broken:
+                    r = rng.random()
+                    if r < 0.2 and dk == "Q":
+                        continue                                   # required attribute missing
+                    if r < 0.3:
+                        el.append((9, [("n", 1)]))                 # undeclared attribute (once per element)
+                        if any(a[0] == 9 for a in el[:-1]):
+                            el.pop()
+                        continue
+                    if dk == "F" and r < 0.5:
+                        v = valid_value(ty, toks, idvals, fresh)
+                        el.append((name, v))
+                        continue
+                    el.append((name, broken_value(ty, toks, idvals, usedids)))
+                    continue
+                if dk == "F":
+                    if rng.random() < 0.5:
+                        el.append((name, dv))
+                    continue
+                if dk in "ID" and rng.random() < 0.4:
+                    continue
+                if ty == "I":
+                    el.append((name, [("n", idvals[e])]))
+                    usedids.append(idvals[e])
+                else:
+                    el.append((name, valid_value(ty, toks, idvals, fresh)))
+            rng.shuffle(el)
+            doc.append(el)
+        cases.append((kind, unparsed, parsed, defs, doc))
+    return cases
+
+
+# ---- catalogue: one validity constraint broken at a time, checked directly on the implementation -----------------
+# (name, document, external subset or None, expected XMLValid code or None for "valid: no error at all")
+def vc_catalogue():
+    D = lambda internal, body, decl='': '<?xml version="1.0"%s?>\n<!DOCTYPE r [%s]>\n%s' % (decl, internal, body)
+    E = "<!ELEMENT r EMPTY>"
+    cat = [
+        ("root-type", '<!DOCTYPE q [<!ELEMENT r EMPTY><!ELEMENT q EMPTY>]><r/>', None, "RootElemNotLikeDocType"),
+        ("root-type-ok", D(E, "<r/>"), None, None),
+        ("undeclared-element", D("<!ELEMENT r ANY>", "<r><x/></r>"), None, "ElementNotDefined"),
+        ("element-twice", D(E + "<!ELEMENT r ANY>", "<r/>"), None, "ElementAlreadyExists"),
+        ("undeclared-in-cm", D("<!ELEMENT r (x)?>", "<r/>"), None, None),   # only a warning-free oddity: see below
+        ("child-not-allowed", D("<!ELEMENT r (a)><!ELEMENT a EMPTY><!ELEMENT b EMPTY>", "<r><b/></r>"), None,
+         "ElementNotValidForContent"),
+        ("chardata-in-children", D("<!ELEMENT r (a)><!ELEMENT a EMPTY>", "<r>x<a/></r>"), None, "NoCharDataInCM"),
+        ("chardata-in-empty", D(E, "<r>x</r>"), None, "NoCharDataInCM"),
+        ("comment-in-empty", D(E, "<r><!--c--></r>"), None, "EmptyElemHasContent"),
+        ("charref-ws-in-children", D("<!ELEMENT r (a)><!ELEMENT a EMPTY>", "<r>&#32;<a/></r>"), None,
+         "ElemChildrenHasInvalidWS"),
+        ("ws-in-children-ok", D("<!ELEMENT r (a)><!ELEMENT a EMPTY>", "<r> \n<a/>\t</r>"), None, None),
+        ("text-in-mixed-ok", D("<!ELEMENT r (#PCDATA|a)*><!ELEMENT a EMPTY>", "<r>x<a/>y<a/></r>"), None, None),
+        ("mixed-dup", D("<!ELEMENT r (#PCDATA|a|a)*><!ELEMENT a EMPTY>", "<r/>"), None, "RepElemInMixed"),
+        ("required-missing", D(E + "<!ATTLIST r a CDATA #REQUIRED>", "<r/>"), None, "RequiredAttrNotProvided"),
+        ("attr-undeclared", D(E, '<r a="1"/>'), None, "AttNotDefinedForElement"),
+        ("fixed-mismatch", D(E + '<!ATTLIST r a CDATA #FIXED "x">', '<r a="y"/>'), None, "NotSameAsFixedValue"),
+        ("fixed-ok", D(E + '<!ATTLIST r a CDATA #FIXED "x">', '<r a="x"/>'), None, None),
+        ("id-dup", D("<!ELEMENT r (a,a)><!ELEMENT a EMPTY><!ATTLIST a i ID #REQUIRED>", '<r><a i="x"/><a i="x"/></r>'),
+         None, "ReusedIDValue"),
+        ("idref-dangling", D(E + "<!ATTLIST r f IDREF #IMPLIED>", '<r f="nope"/>'), None, "IDNotDeclared"),
+        ("idref-forward-ok", D("<!ELEMENT r (a,a)><!ELEMENT a EMPTY><!ATTLIST a i ID #IMPLIED f IDREFS #IMPLIED>",
+                               '<r><a f="y x"/><a i="x"/></r>'.replace("y x", "x x")), None, None),
+        ("id-not-name", D(E + "<!ATTLIST r i ID #IMPLIED>", '<r i="1x"/>'), None, "AttrValNotName"),
+        ("id-with-default", D(E + '<!ATTLIST r i ID "x">', "<r/>"), None, "BadIDAttrDefType"),
+        ("two-id-attrs", D(E + "<!ATTLIST r i ID #IMPLIED j ID #IMPLIED>", "<r/>"), None, "MultipleIdAttrs"),
+        ("entity-attr-parsed", D(E + '<!ENTITY p "x"><!ATTLIST r e ENTITY #IMPLIED>', '<r e="p"/>'), None,
+         "BadEntityRefAttr"),
+        ("entity-attr-unknown", D(E + "<!ATTLIST r e ENTITY #IMPLIED>", '<r e="p"/>'), None, "UnknownEntityRefAttr"),
+        ("entity-attr-ok", D(E + '<!NOTATION n SYSTEM "n"><!ENTITY u SYSTEM "u" NDATA n><!ATTLIST r e ENTITIES #IMPLIED>',
+                             '<r e="u u"/>'), None, None),
+        ("ndata-undeclared-notation", D(E + '<!ENTITY u SYSTEM "u" NDATA n>', "<r/>"), None, "NotationNotDeclared"),
+        ("nmtoken-bad", D(E + "<!ATTLIST r n NMTOKEN #IMPLIED>", '<r n="a#b"/>'), None, "AttrValNotName"),
+        ("nmtoken-two", D(E + "<!ATTLIST r n NMTOKEN #IMPLIED>", '<r n="a b"/>'), None, "NoMultipleValues"),
+        ("nmtokens-empty", D(E + "<!ATTLIST r n NMTOKENS #IMPLIED>", '<r n=""/>'), None, "InvalidEmptyAttValue"),
+        ("enum-not-listed", D(E + "<!ATTLIST r e (a|b) #IMPLIED>", '<r e="c"/>'), None, "DoesNotMatchEnumList"),
+        ("enum-dup-token", D(E + "<!ATTLIST r e (a|a) #IMPLIED>", "<r/>"), None, "AttrDupToken"),
+        ("enum-bad-default", D(E + '<!ATTLIST r e (a|b) "c">', "<r/>"), None, "DoesNotMatchEnumList"),
+        ("notation-unlisted-decl", D('<!ELEMENT r ANY><!NOTATION n SYSTEM "n"><!ATTLIST r t NOTATION (n|m) #IMPLIED>',
+                                     "<r/>"), None, "UnknownNotRefAttr"),
+        ("notation-on-empty", D(E + '<!NOTATION n SYSTEM "n"><!ATTLIST r t NOTATION (n) #IMPLIED>', "<r/>"), None,
+         "EmptyElemNotationAttr"),
+        ("two-notation-attrs", D('<!ELEMENT r ANY><!NOTATION n SYSTEM "n"><!ATTLIST r t NOTATION (n) #IMPLIED '
+                                 "u NOTATION (n) #IMPLIED>", "<r/>"), None, "ElemOneNotationAttr"),
+        ("notation-ok", D('<!ELEMENT r ANY><!NOTATION n SYSTEM "n"><!ATTLIST r t NOTATION (n) #IMPLIED>', '<r t="n"/>'),
+         None, None),
+        # standalone declaration (external subset served by the harness's entity resolver)
+        ("standalone-default", '<?xml version="1.0" standalone="yes"?><!DOCTYPE r SYSTEM "x.dtd"><r/>',
+         '<!ELEMENT r EMPTY><!ATTLIST r a CDATA "d">', "NoDefAttForStandalone"),
+        ("standalone-default-no", '<?xml version="1.0" standalone="no"?><!DOCTYPE r SYSTEM "x.dtd"><r/>',
+         '<!ELEMENT r EMPTY><!ATTLIST r a CDATA "d">', None),
+        ("standalone-default-given", '<?xml version="1.0" standalone="yes"?><!DOCTYPE r SYSTEM "x.dtd"><r a="v"/>',
+         '<!ELEMENT r EMPTY><!ATTLIST r a CDATA "d">', None),
+        ("standalone-attnorm", '<?xml version="1.0" standalone="yes"?><!DOCTYPE r SYSTEM "x.dtd"><r a=" x  y "/>',
+         "<!ELEMENT r EMPTY><!ATTLIST r a NMTOKENS #IMPLIED>", "NoAttNormForStandalone"),
+        ("standalone-ws", '<?xml version="1.0" standalone="yes"?><!DOCTYPE r SYSTEM "x.dtd"><r> <a/></r>',
+         "<!ELEMENT r (a)><!ELEMENT a EMPTY>", "NoWSForStandalone"),
+        ("standalone-ws-no", '<?xml version="1.0" standalone="no"?><!DOCTYPE r SYSTEM "x.dtd"><r> <a/></r>',
+         "<!ELEMENT r (a)><!ELEMENT a EMPTY>", None),
+    ]
+    return [c for c in cat if c[0] != "undeclared-in-cm"]
+
+
+# ---- other renderings of the same declaration / instance (equal verdict expected) -------------------------------
+def spaced(cmtext, rng):
+    out = ""
+    for ch in cmtext:
+        if ch in ",|":
+            out += rng.choice(["", " ", "\n"]) + ch + rng.choice(["", " ", "\t "])
+        elif ch == "(":
+            out += ch + rng.choice(["", " "])
+        elif ch == ")":
+            out += rng.choice(["", " "]) + ch
+        else:
+            out += ch
+    return out
+
+
+def variant_doc(rng, variant, cmtext, declared, w, emptytag, model):
+    """returns (document text, external subset text or None)"""
+    rdecl = "<!ELEMENT r %s>" % cmtext
+    others = "".join("<!ELEMENT n%d EMPTY>\n" % d for d in declared)
+    kids = ["<n%d/>" % k for k in w]
+    body = "<r/>" if (emptytag and not w) else "<r>" + "".join(kids) + "</r>"
+    head = '<?xml version="1.0"?>\n'
+    if variant == "external":
+        return head + '<!DOCTYPE r SYSTEM "x.dtd">\n' + body + "\n", rdecl + "\n" + others
+    if variant == "split":
+        return head + '<!DOCTYPE r SYSTEM "x.dtd" [\n' + rdecl + "\n]>\n" + body + "\n", others
+    if variant == "split2":
+        return head + '<!DOCTYPE r SYSTEM "x.dtd" [\n' + others + "]>\n" + body + "\n", "<!-- c -->" + rdecl
+    if variant == "pe":
+        return (head + "<!DOCTYPE r [\n<!ENTITY %% d '%s'>\n%%d;\n%s]>\n%s\n" % (rdecl, others, body)), None
+    if variant == "ext-pe-cm":      # the whole content spec comes from a parameter entity (external subset only)
+        return (head + '<!DOCTYPE r SYSTEM "x.dtd">\n' + body + "\n",
+                "<!ENTITY %% cs '%s'>\n<!ELEMENT r %%cs;>\n%s" % (cmtext, others))
+    if variant == "ws":
+        return head + "<!DOCTYPE r [\n<!ELEMENT r %s >\n%s]>\n%s\n" % (spaced(cmtext, rng), others, body), None
+    if variant == "iws":            # white space, comments and PIs between the children
+        fill = lambda: rng.choice([" ", "\n", "<!--c-->", "<?p i?>", "\t\n ", ""])
+        b = "<r>" + fill() + "".join(k + fill() for k in kids) + "</r>"
+        return head + "<!DOCTYPE r [\n" + rdecl + "\n" + others + "]>\n" + b + "\n", None
+    if variant == "itext":          # character data between the children of a mixed / ANY element
+        fill = lambda: rng.choice(["x", "", " y ", "&#65;", "<![CDATA[z]]>"])
+        b = "<r>" + fill() + "".join(k + fill() for k in kids) + "</r>"
+        return head + "<!DOCTYPE r [\n" + rdecl + "\n" + others + "]>\n" + b + "\n", None
+    raise ValueError(variant)
+
+
+# ---- cross-check of the extracted code inside Coq ----------------------------------------------------------------
+def coq_cm(pol):
+    """polish text of a cm -> Coq term"""
+    toks = pol.split(".")
+
+    def go(i):
+        t = toks[i]
+        if t[0] == "L":
+            return "(Leaf %s)" % t[1:], i + 1
+        if t in ("S", "C"):
+            a, j = go(i + 1)
+            b, k = go(j)
+            return "(%s %s %s)" % ("Seq" if t == "S" else "Choice", a, b), k
+        a, j = go(i + 1)
+        return "(%s %s)" % ({"O": "Opt", "T": "Star", "P": "Plus"}[t], a), j
+    term, j = go(0)
+    assert j == len(toks)
+    return term
+
+
+def coq_model(m):
+    if m == "E":
+        return "MEmpty"
+    if m == "A":
+        return "MAny"
+    if m.startswith("M:"):
+        return "(MMixed [%s])" % "; ".join(x for x in m[2:].split(",") if x)
+    return "(MChildren %s)" % coq_cm(m[2:])
+
+
+def coq_crosscheck(ctx, picked):
+    """picked: list of (model, declared, children, 'ok'|'fail:N', spec 0/1).  Evaluates the Gallina definitions
+    themselves by vm_compute (no extraction, no OCaml) and compares with what the extracted program answered."""
+    d = os.path.join(V.BUILD, "C07")
+    os.makedirs(d, exist_ok=True)
+    rows = []
+    for m, decl, w, v, sp in picked:
+        r = "VOk" if v == "ok" else "(VFail %s)" % v.split(":")[1]
+        rows.append("(%s, [%s], [%s], %s, %s)" % (coq_model(m), "; ".join(map(str, decl)), "; ".join(map(str, w)), r,
+                                                  "true" if sp else "false"))
+    txt = ("(* GENERATED by checks/C07.py: answers of the extracted OCaml program, re-evaluated inside Coq *)\n"
+           "From Coq Require Import List Bool Arith.\nImport ListNotations.\n"
+           "From XV Require Import C07.Spec07 C07.Model07.\n"
+           "Definition vres_eqb (a b : vres) : bool := match a, b with VOk, VOk => true | VFail i, VFail j => Nat.eqb i j "
+           "| _, _ => false end.\n"
+           "Definition cases : list (cmodel * list nat * list nat * vres * bool) := [\n  %s].\n"
+           "Example extracted_agrees : forallb (fun c => match c with (m, decl, w, r, sp) => "
+           "vres_eqb (check_content %d m w) r && Bool.eqb (doc_validb decl m w) sp end) cases = true.\n"
+           "Proof. vm_compute. reflexivity. Qed.\n" % (";\n  ".join(rows), FUEL))
+    path = os.path.join(d, "cases_c07.v")
+    open(path, "w").write(txt)
+    rc, out = V.sh("timeout 170 coqc -w -all -Q %s XV %s" % (os.path.join(V.COQ, "theories"), path), cwd=d, timeout=200)
+    return rc == 0, out
+
+
 def run_bin(binpath, lines, timeout=3000):
     p = subprocess.run([binpath], input=("\n".join(lines) + "\n").encode(), stdout=subprocess.PIPE,
                        stderr=subprocess.PIPE, timeout=timeout)
@@ -289,11 +676,16 @@ def run(ctx):
     have_model = os.path.exists(os.path.join(V.VERIF, "ocaml", "C07", "gen_c07.ml"))
     xm = ctx.ocaml("C07", ["gen_c07"]) if have_model else None
     xh = ctx.harness("C07")
+    replay_req, replay_rec = None, None
     if ctx.replay:
-        r = json.load(open(ctx.replay))
-        a = r["request"].split()
-        cases = [("replay", r["request"], a[3], [int(x) for x in a[2].split(",")] if a[2] != "-" else [],
-                  [int(x) for x in a[6].split(",")] if a[6] != "-" else [])]
+        replay_rec = json.load(open(ctx.replay))
+        replay_req = replay_rec.get("request") or ""
+        if replay_req.startswith("cm "):
+            a = replay_req.split()
+            cases = [("replay", replay_req, a[3], [int(x) for x in a[2].split(",")] if a[2] != "-" else [],
+                      [int(x) for x in a[6].split(",")] if a[6] != "-" else [])]
+        else:
+            cases = []
     else:
         cases = gen_cases(ctx)
     lines = [c[1] for c in cases]
@@ -338,7 +730,7 @@ def run(ctx):
     ctx.coverage["input_distribution"] = dict(kinds, valid=nvalid, invalid=len(lines) - nvalid)
     ctx.coverage["spec_oracle_checked"] = len(lines)
     for k in (7, len(cases) // 2, len(cases) - 1):
-        if k < len(cases):
+        if 0 <= k < len(cases):
             ctx.sample({"kind": cases[k][0], "request": cases[k][1], "impl": impl[k], "model": model[k], "spec": spec[k]})
     for kind, rq, i, mo, sp in spec_viol[:5]:
         ctx.violation("spec", {"request": rq, "impl": i, "model": mo, "spec": sp, "kind": kind,
@@ -350,6 +742,163 @@ def run(ctx):
                                          "although the validity verdict agrees with the Spec: correspondence "
                                          "xh_C07~xm_C07 no longer checks", "request": rq, "impl": i, "model": mo,
                                          "spec": sp, "count": len(divergences)}, no_input=True)
+    # ---- the extracted program against the Gallina definitions evaluated by Coq itself --------------------------
+    if not ctx.replay and not proof_broken:
+        pool = [k for k, c in enumerate(cases) if c[0] in ("small", "small-valid", "small-mutant", "nondet", "deep-valid",
+                                                            "deep-mutant", "mixed") and len(c[1]) < 400
+                and "MODEL" not in model[k]]
+        ctx.rng.shuffle(pool)
+        picked = []
+        for k in pool[:250 if ctx.tier == "quick" else 1500]:
+            v = model[k].split(" v=")[1].split(" ")[0]
+            picked.append((cases[k][2], cases[k][3], cases[k][4], v, spec[k] == "valid 1"))
+        okc, outc = coq_crosscheck(ctx, picked)
+        ctx.coverage["obligations"] += 1
+        if okc:
+            ctx.coverage["discharged"] += 1
+            ctx.coverage["extraction_crosscheck"] = "%d (model, children) answers of bin/xm_C07 re-evaluated by vm_compute in Coq" % len(picked)
+        else:
+            ctx.violation("extraction-crosscheck", {"what": "answers of the extracted OCaml program differ from the Gallina "
+                                                    "definitions evaluated inside Coq (extraction / driver fault)",
+                                                    "output": outc[-2000:]}, no_input=True)
+    # ---- other renderings of declaration and instance: same codes expected ------------------------------------
+    hx = lambda t: t.encode().hex().upper()
+    if ctx.replay and replay_rec.get("tag") == "variant":
+        rcv, vout, _ = run_bin(xh, [replay_rec["variant_request"]])
+        got = vout[0].split(" a=")[0][2:] if vout else "no answer"
+        if got != replay_rec["expected"]:
+            ctx.violation("variant", dict(replay_rec, impl=vout[0] if vout else None))
+    if not ctx.replay:
+        rng = ctx.rng
+        idx = list(range(len(cases)))
+        rng.shuffle(idx)
+        vlines, vexp, vinfo = [], [], []
+        for k in idx[:(1500 if ctx.tier == "quick" else 20000)]:
+            kind, rq, m, d, w = cases[k]
+            a = rq.split()
+            cmtext, emptytag = a[4], a[5] == "1"
+            opts = ["external", "split", "split2", "pe", "ext-pe-cm", "ws"]
+            if m != "E":
+                opts.append("iws")
+            if m == "A" or m.startswith("M:"):
+                opts.append("itext")
+            variant = rng.choice(opts)
+            if variant in ("iws", "itext") and emptytag:
+                continue
+            doc, ext = variant_doc(rng, variant, cmtext, d, w, emptytag, m)
+            vlines.append("doc v %s%s" % (hx(doc), " " + hx(ext) if ext is not None else ""))
+            vexp.append(impl[k].split(" e=")[-1])
+            vinfo.append((variant, rq))
+        rcv, vout, verr_ = run_bin(xh, vlines)
+        if rcv != 0 or len(vout) != len(vlines):
+            ctx.violation("harness-crash", {"what": "harness crashed on a DTD rendering variant", "stderr": verr_[-2000:],
+                                            "request": vlines[len(vout)] if len(vout) < len(vlines) else None})
+            return
+        vbad = 0
+        for (variant, rq), exp, o, line in zip(vinfo, vexp, vout, vlines):
+            ctx.count()
+            kinds["variant-" + variant] = kinds.get("variant-" + variant, 0) + 1
+            got = o.split(" a=")[0][2:]
+            if got != exp:
+                vbad += 1
+                if vbad <= 3:
+                    ctx.violation("variant", {"what": "the same declaration/instance rendered as '%s' gives different "
+                                              "validity errors than the internal-subset rendering (which agrees with the "
+                                              "model and the Spec)" % variant, "request": rq, "variant_request": line,
+                                              "expected": exp, "impl": o})
+        ctx.coverage["input_distribution"] = dict(kinds, valid=nvalid, invalid=len(lines) - nvalid)
+    # ---- catalogue: every violated constraint yields >= 1 validity error and no fatal error -------------------
+    cat = vc_catalogue()
+    clines = ["doc v %s%s" % (hx(d), " " + hx(e) if e is not None else "") for _, d, e, _ in cat]
+    rcc, cout, cerr = run_bin(xh, clines)
+    if rcc != 0 or len(cout) != len(clines):
+        ctx.violation("harness-crash", {"what": "harness crashed on the constraint catalogue", "stderr": cerr[-2000:]})
+        return
+    for (name, d, e, exp), o, line in zip(cat, cout, clines):
+        ctx.count()
+        es = o.split(" a=")[0][2:]
+        if exp is None:
+            good = es == "-"
+        else:
+            cl = es.split(",")
+            good = ("V%d" % codes[exp]) in cl and all(c.startswith("V") and c[1:].isdigit() for c in cl)
+        if not good:
+            ctx.violation("catalogue", {"what": "constraint catalogue entry '%s': expected %s, no fatal error, nothing else "
+                                        "than validity errors" % (name, exp or "no error"), "request": line, "document": d,
+                                        "external_subset": e, "impl": o})
+    kinds["catalogue"] = len(cat)
+    # ---- attributes ------------------------------------------------------------------------------------------------
+    if ctx.replay:
+        acases, l1, l0 = [], [], []
+        if replay_req.startswith("attr "):
+            a = replay_req.split()
+            acases = [("attr-F25-witness" if replay_rec.get("tag") == "F25-enum-multi" else "replay",)]
+            l1 = [" ".join(a[:1] + ["1"] + a[2:])]
+            l0 = [" ".join(a[:1] + ["0"] + a[2:])]
+    else:
+        acases = gen_attr_cases(ctx)
+        l1 = [attr_req(1, *c[1:]) for c in acases]
+        l0 = [attr_req(0, *c[1:]) for c in acases]
+    sp = [" ".join(["aspec"] + l.split()[2:6]) for l in l1]
+    rca, aimpl, aerr = run_bin(xh, l1)
+    rcb, am1, _ = run_bin(xm, l1)
+    rcc2, am0, _ = run_bin(xm, l0)
+    rcd, aspec, _ = run_bin(xm, sp)
+    if rca != 0 or len(aimpl) != len(l1):
+        ctx.violation("harness-crash", {"what": "harness crashed on an attribute case", "stderr": aerr[-2000:],
+                                        "request": l1[len(aimpl)] if len(aimpl) < len(l1) else None})
+        return
+    if len(am1) != len(l1) or len(am0) != len(l1) or len(aspec) != len(l1):
+        ctx.violation("model-crash", {"what": "model driver crashed on attribute cases"}, no_input=True)
+        return
+    f25_seen = 0
+    f25_witness = False
+    adiv = []
+    for k, (c, i, m1, m0, spv) in enumerate(zip(acases, aimpl, am1, am0, aspec)):
+        ctx.count()
+        kinds[c[0]] = kinds.get(c[0], 0) + 1
+        ctx.distinct(l1[k][:l1[k].rindex(" ")])
+        valid = spv == "valid 1"
+        ivalid = i.startswith("e=- ")
+        bad_other = ("NONVALIDATING-DIFFERS" in i or i.startswith("exception") or i.startswith("scanners-differ")
+                     or any(x.startswith(("VF", "VW", "X")) for x in i.split(" a=")[0][2:].split(",")))
+        if bad_other:
+            ctx.violation("attr-impl", {"what": "attribute case: fatal/other error, scanners differ, or the attributes "
+                                        "delivered without validation differ from those delivered with validation",
+                                        "request": l1[k], "impl": i, "model": m1})
+            continue
+        if i == m0:                       # repaired behaviour (also the behaviour outside the F25 class)
+            if ivalid != valid:
+                ctx.violation("spec", {"what": "attribute verdict contradicts the Spec", "request": l0[k], "impl": i,
+                                       "spec": spv})
+            continue
+        if i == m1 and f25_class_req(l1[k]) and (m0.startswith("e=- ") == valid):
+            f25_seen += 1
+            if k < 2:
+                f25_witness = True
+            continue
+        adiv.append((k, i, m1, m0, spv))
+    if f25_seen:
+        if ctx.find_known("F25") and f25_witness:
+            ctx.known_finding("F25", "a NOTATION / enumeration attribute value made of several listed tokens is accepted "
+                              "(witness <!ATTLIST e a1 (t1|t2) #IMPLIED> with a1=\"t1 t2\": no validity error); %d generated "
+                              "cases of this class; repaired by fixes/C07-enum-single-token.patch" % f25_seen)
+        else:
+            ctx.violation("F25-enum-multi", {"what": "a NOTATION / enumeration attribute value made of several listed tokens "
+                                             "is accepted (VC Enumeration / Notation Attributes violated, no error)",
+                                             "request": l1[0], "impl": aimpl[0], "model_repaired": am0[0],
+                                             "spec": aspec[0]})
+    for k, i, m1, m0, spv in adiv[:3]:
+        viol = i.startswith("e=- ") != (spv == "valid 1")
+        ctx.violation("divergence" if viol else "correspondence",
+                      {"what": "attribute case: implementation differs from the model" +
+                       (" and contradicts the Spec" if viol else " (verdict still agrees with the Spec)"),
+                       "request": l1[k], "impl": i, "model_as_written": m1, "model_repaired": m0, "spec": spv},
+                      no_input=not viol)
+    ctx.coverage["attr_cases"] = {"total": len(acases), "valid": sum(1 for x in aspec if x == "valid 1"),
+                                  "f25_class": f25_seen, "divergences": len(adiv)}
+    ctx.coverage["input_distribution"] = dict(kinds, valid=nvalid, invalid=len(lines) - nvalid)
+    ctx.coverage["traces_validated_against_impl"] = len(lines) + len(acases) + len(cat)
     if proof_broken and not ctx.violations:
         ctx.violation("obligation", {"what": "Coq obligation no longer checks and no failing input was found by the "
                                      "correspondence sweeps", "failed": failed, "output": out[-3000:]}, no_input=True)
@@ -358,6 +907,11 @@ def run(ctx):
                             "to length 4 (5 in thorough) + valid-by-construction words + one-edit mutants; random deeper "
                             "n-ary models; classic non-deterministic shapes x all words up to length 6; 31..140-leaf models "
                             "across the CMStateSet word/representation boundaries; distinct by (model, children, tag form)")
+    ctx.coverage["rule"] += ("; a sample re-rendered with external / split subsets, parameter entities, white space in "
+                             "the declaration, white space / comments / PIs / text between children (same codes required); "
+                             "attribute declarations of every type and default kind x 1..4 element instances, valid by "
+                             "construction or with 1-2 rules broken, each also parsed without validation (same delivered "
+                             "attributes required); a catalogue of %d documents breaking one constraint each" % len(cat))
     ctx.coverage["exhaustive"] = False
     ctx.note("correspondence: %d cases, %d divergences, %d spec contradictions, %.1fs" % (
         len(lines), len(divergences), len(spec_viol), time.time() - t0))
